@@ -819,6 +819,11 @@ def c09(tier, seed):
     # single-asset one (any batch-size-dependent processing path is taken), few steps
     for i, (comp, z) in enumerate([("MMixed", 400), ("MNested", 300), ("Mixed", 200)] if q else [("MMixed", 400), ("MNested", 300), ("Mixed", 200), ("MMixed", 800), ("TwoNoise", 300)]):
         configs[7 + 2 * i].update({"comp": comp, "scale": z, "steps": 3})
+    # always-active populations: every agent submits exactly one instruction per step, so every step of every run carries the same
+    # number of instructions (14 and 168 of them) - whatever is kept between batches of equal size (a scratch buffer, a cached
+    # permutation) is then actually reused: within a run, and in process F across runs
+    for i, z in ((13, 14), (19, 1), (25, 14)):
+        configs[i] = {"seed": configs[i]["seed"], "steps": 6, "step_size": 1000, "tick": configs[i]["tick"], "comp": "OnlyRandom", "scale": z, "rate": 1.0}
     # environments that already have a history when the runner is called (quotes placed and one or two steps taken by hand)
     for i in range(2, len(configs), 4):
         if "scale" not in configs[i]:
@@ -834,7 +839,11 @@ def c09(tier, seed):
         # separate OS processes (own address space, own hash seeds, own start time); process F runs the configurations in
         # reverse order and each twice in a row, reporting the second run ("in the same process or a different one")
         procs.append((tag, subprocess.Popen([os.path.join(core.BIN, "sim_run"), "--configs", cf, "--out", outs[tag], "--progress", prog,
-                                             "--seed-shift", str(shift), "--order", order], stdout=subprocess.DEVNULL, stderr=subprocess.PIPE, text=True)))
+                                             "--seed-shift", str(shift), "--order", order,
+                                             # B and F run the simulations with the SECOND expansion of the derive macros (the agent sets are
+                                             # declared twice from the same text): same seed, parameters and agents => same outcome
+                                             "--expansion", "second" if tag in ("B", "F") else "first"],
+                                            stdout=subprocess.DEVNULL, stderr=subprocess.PIPE, text=True)))
     for tag, p in procs:
         _, err = p.communicate()
         if p.returncode != 0:
